@@ -6,6 +6,7 @@ import Mps.Drv.TwoParty
 import Mps.Drv.Sessions
 import Mps.Drv.Alg
 import Mps.Drv.Pool
+import Mps.Drv.Paillier
 /-
   mpsdriver: reads the harness' JSON lines on stdin, answers one line per operation with what
   the MODEL says: {"id":N,"model":{...}}. Core-only (no Mathlib below this file).
@@ -23,6 +24,7 @@ def dispatch (st : DState) (suite op : String) (inp : Json) : DState × Json :=
   | "sess-keygen" | "sess-sign" | "sess-refresh" | "sess-derive" => (st, Mps.Drv.Sessions.handle op inp)
   | "alg" | "algfind" => (st, Mps.Drv.Alg.handle op inp)
   | "pool" => (st, Mps.Drv.Pool.handle op inp)
+  | "paillier" => (st, Mps.Drv.Paillier.handle op inp)
   | "session" => (st, Mps.Drv.Session.handle op inp)
   | "handler" | "handlerconc" => let (h, j) := Mps.Drv.Handler.handle st.handler op inp; ({ st with handler := h }, j)
   | _ => (st, jobj [("error", "unknown suite")])
